@@ -32,20 +32,22 @@ const FORMS: [&str; 6] = [
     "btor2 symbol",
 ];
 
-fn filler(out: &mut Vec<u8>, n: usize, seed: u64) {
+fn filler(out: &mut Vec<u8>, n: usize, seed: u64) -> usize {
     let start = out.len();
     out.resize(start + n, 0);
     let s = seed as usize;
     for (i, b) in out[start..].iter_mut().enumerate() {
         *b = b'a' + ((i.wrapping_mul(7).wrapping_add(s) >> 3) % 26) as u8;
     }
+    start
 }
 
-pub fn build(form: u8, giant: usize, seed: u64) -> (PCfg, Vec<u8>) {
+pub fn build(form: u8, giant: usize, seed: u64) -> (PCfg, Vec<u8>, usize) {
     let mut rng = Rng::new(seed);
     let mut d: Vec<u8> = Vec::with_capacity(giant + 4096);
     let k1 = 3 + rng.below(40);
     let k2 = 3 + rng.below(40);
+    let mut at = 0usize;
     let kind = match form % 6 {
         0 => {
             d.extend_from_slice(format!("p cnf 50 {}\n", k1 + k2).as_bytes());
@@ -53,7 +55,7 @@ pub fn build(form: u8, giant: usize, seed: u64) -> (PCfg, Vec<u8>) {
                 d.extend_from_slice(format!("{} -{} {} 0\n", 1 + i % 50, 1 + (i * 7) % 50, 1 + (i * 3) % 50).as_bytes());
             }
             d.extend_from_slice(b"c ");
-            filler(&mut d, giant, seed);
+            at = filler(&mut d, giant, seed);
             d.push(b'\n');
             for i in 0..k2 {
                 d.extend_from_slice(format!("-{} {} 0\n", 1 + i % 50, 1 + (i * 11) % 50).as_bytes());
@@ -67,11 +69,11 @@ pub fn build(form: u8, giant: usize, seed: u64) -> (PCfg, Vec<u8>) {
             }
             if form % 6 == 1 {
                 d.extend_from_slice(b"; ");
-                filler(&mut d, giant, seed);
+                at = filler(&mut d, giant, seed);
                 d.push(b'\n');
             } else {
                 d.extend_from_slice(format!("{} input 1 ", 2 + k1).as_bytes());
-                filler(&mut d, giant, seed);
+                at = filler(&mut d, giant, seed);
                 d.push(b'\n');
             }
             for i in 0..k2 {
@@ -81,19 +83,19 @@ pub fn build(form: u8, giant: usize, seed: u64) -> (PCfg, Vec<u8>) {
         }
         2 => {
             d.extend_from_slice(b"aig 1 1 0 1 0\n2\nc\n");
-            filler(&mut d, giant, seed);
+            at = filler(&mut d, giant, seed);
             d.push(b'\n');
             PKind::Aig
         }
         3 => {
             d.extend_from_slice(b"c start\nc ");
-            filler(&mut d, giant, seed);
+            at = filler(&mut d, giant, seed);
             d.extend_from_slice(b"\ns SATISFIABLE\nv 1 -2 3 0\n");
             PKind::SatLog
         }
         _ => {
             d.extend_from_slice(b"aag 2 2 0 1 0\n2\n4\n4\ni0 ");
-            filler(&mut d, giant, seed);
+            at = filler(&mut d, giant, seed);
             d.extend_from_slice(b"\ni1 second\no0 out\n");
             PKind::Aag
         }
@@ -105,11 +107,15 @@ pub fn build(form: u8, giant: usize, seed: u64) -> (PCfg, Vec<u8>) {
         whole: false,
         early: 0,
     };
-    (cfg, d)
+    (cfg, d, at)
 }
 
 fn parse_case(c: &GiantCase, giant: usize) -> ParseCase {
-    let (cfg, doc) = build(c.form, giant, c.seed);
+    parse_case_at(c, giant).0
+}
+
+fn parse_case_at(c: &GiantCase, giant: usize) -> (ParseCase, usize) {
+    let (cfg, doc, at) = build(c.form, giant, c.seed);
     let mut steps = vec![];
     if c.interrupts {
         steps.push(Step::Interrupted);
@@ -119,7 +125,7 @@ fn parse_case(c: &GiantCase, giant: usize) -> ParseCase {
     } else if c.interrupts {
         steps.push(Step::Fill);
     }
-    ParseCase {
+    let pc = ParseCase {
         cfg,
         doc,
         class: 0,
@@ -137,8 +143,9 @@ fn parse_case(c: &GiantCase, giant: usize) -> ParseCase {
             poison: None,
         },
         only_k: None,
-        fault_kind: 0,
-    }
+        fault_kind: (c.seed % 14) as u8,
+    };
+    (pc, at)
 }
 
 fn clip(mut s: String) -> String {
@@ -153,14 +160,66 @@ fn clip(mut s: String) -> String {
     s
 }
 
-pub struct C01g;
+impl Giant {
+    fn exec_c04(&self, c: &GiantCase, st: &mut Stats) -> RunOut {
+        let (base, at) = parse_case_at(c, c.giant);
+        let len = base.doc.len();
+        let mut t = Fnv::default();
+        let mut violation = None;
+        let mut fired = false;
+        st.hit(&format!("giant.{}", FORMS[c.form as usize % 6].replace(' ', "_")));
+        st.max("giant_item_bytes", c.giant as u64);
+        for k in [at + 1, at + c.giant / 2, at + c.giant - 1, len] {
+            crate::framework::heartbeat();
+            let mut pc = base.clone();
+            pc.only_k = Some(k);
+            let mut sub = Stats::default();
+            let out = crate::props::parsers::C04.exec(&pc, &mut sub);
+            fired |= sub.counters.get("fault.terminal_error_fired").copied().unwrap_or(0) > 0;
+            sub.counters.remove("runs");
+            st.merge(sub);
+            t.u64(out.trace);
+            if let Some(mut v) = out.violation {
+                v.detail = clip(v.detail);
+                v.signature = format!("giant {}: {}", FORMS[c.form as usize % 6], clip(v.signature));
+                violation = Some(v);
+                break;
+            }
+        }
+        let mut k = Fnv::default();
+        k.str(&format!("{c:?}"));
+        RunOut {
+            violation,
+            key: if fired { Some(k.0) } else { None },
+            trace: t.0,
+        }
+    }
+}
 
-impl Prop for C01g {
+pub struct Giant {
+    /// false: C01g (schedule independence), true: C04g (failing source inside / after the giant item)
+    pub c04: bool,
+}
+
+impl Prop for Giant {
     type Case = GiantCase;
     fn id(&self) -> &'static str {
-        "C01g"
+        if self.c04 {
+            "C04g"
+        } else {
+            "C01g"
+        }
     }
     fn meta(&self) -> Meta {
+        if self.c04 {
+            return Meta {
+                level: "fault_enumeration",
+                rule: "documents with ONE item of 64..160 MiB as for C01g; the source fails with a terminal error at four offsets per case: one byte into the giant item, in its middle, at its last byte, and exactly at the end of the input (an error instead of EOF); oracle as for C04 (the failing read was issued => exactly that I/O error; items handed out are a prefix of the fault-free items); evaluations counts (case, offset) executions; non-trivial iff the fault fired; distinct = distinct case parameters",
+                assumptions: vec!["the four offsets are fixed relative to the giant item, not sampled"],
+                real: vec!["cnf / btor2 / aig / aag / solver-log parsers", "flussab::DeferredReader (buffer growth beyond 64 MiB)", "LineReader::give_up*"],
+                stub: vec!["byte source (SimSource) with terminal error injected at offset k"],
+            };
+        }
         Meta {
             level: "exploration",
             rule: "documents with ONE item of 64..160 MiB (cnf / btor2 / solver-log comment line, AIGER comment section, aag or btor2 symbol name) between ordinary items; the transcript under a seeded (chunk size in {4096, default, 65536, 1 MiB}, read size in {as offered, 64 KiB, 1 MiB, 1000003}, optional Interrupted before every read) is compared with the one-shot default-chunk transcript of the same bytes, and the number of items and the outcome are compared with the same document carrying a 9-byte item instead; non-trivial iff the scheduled source served >= 2 successful reads; distinct = distinct case parameters",
@@ -170,6 +229,14 @@ impl Prop for C01g {
         }
     }
     fn runs(&self, tier: Tier) -> u64 {
+        if self.c04 {
+            return match (tier, cfg!(debug_assertions)) {
+                (Tier::Quick, true) => 1,
+                (Tier::Quick, false) => 4,
+                (Tier::Thorough, true) => 6,
+                (Tier::Thorough, false) => 24,
+            };
+        }
         match (tier, cfg!(debug_assertions)) {
             (Tier::Quick, true) => 3,
             (Tier::Quick, false) => 9,
@@ -200,6 +267,9 @@ impl Prop for C01g {
         }
     }
     fn exec(&self, c: &GiantCase, st: &mut Stats) -> RunOut {
+        if self.c04 {
+            return self.exec_c04(c, st);
+        }
         let small = reference(&parse_case(c, 9));
         crate::framework::heartbeat();
         let case = parse_case(c, c.giant);
